@@ -549,8 +549,15 @@ def main():
         rep = json.load(open(a.replay))
         mod = {'C08': 'oracle_C08', 'C07': 'oracle_sym', 'C05': 'oracle_sym', 'C04': 'oracle_C04', 'C02': 'oracle_C02', 'C20': 'kernels', 'C11': 'oracle_C11', 'C13': 'oracle_C13', 'C09': 'oracle_C09', 'C19': 'oracle_C19', 'C03': 'oracle_C03', 'C17': 'oracle_C17', 'C16': 'oracle_C16', 'C12': 'oracle_C12', 'C06': 'oracle_C06', 'C14': 'oracle_C14', 'C15': 'oracle_C15', 'C18': 'oracle_C18', 'C10': 'oracle_C10', 'C01': 'oracle_C01'}.get(a.prop)
         res = harness(mod, (['--prop', a.prop] if mod == 'oracle_sym' else []) + ['--mode', 'replay', '--file', a.replay])
+        known = [k for k in load_known()['findings'] if k['property'] == a.prop]
+        new_v = [v for v in res.get('violations', []) if not any(k['key'] == v.get('key') for k in known)]
+        for k in {k['key']: k for k in known if any(k['key'] == v.get('key') for v in res.get('violations', []))}.values():
+            print('KNOWN-FINDING: property=%s %s' % (a.prop, k['what']))
+        res['violations'] = new_v
         print(json.dumps(res, indent=1))
-        return 1 if res.get('violations') else 0
+        if new_v:
+            print('VIOLATION property=%s replay=%s' % (a.prop, a.replay))
+        return 1 if new_v else 0
     if a.prop not in CHECKS:
         print('no check registered for', a.prop)
         return 2
